@@ -218,6 +218,12 @@ def r12d(ctx):
     ws = serde.tokens(hs)
     rs = serde.tokens(hd)
     okw = [t['width'] for t in ws] == ['u32', 'u32s'] and ws[0]['value'][0] in ('call', 'len') and flow.show(ws[0]['value']).startswith('Vec::len(self.chunk_byte_indices') and flow.show(ws[1]['value']) .startswith('self.chunk_byte_indices')
+    if not okw and [t['width'] for t in ws] == ['u32', 'u32'] and ws[0]['rep'] is None and ws[1]['rep'] is not None:
+        # write_u32s written out: one u32 per element in a loop that passes over the whole vector
+        from . import loops as L_
+        lpw = serde.innermost_loop(hs, ws[1]['block'])
+        wp = L_.whole_pass(hs, lpw, lambda z: 'chunk_byte_indices' in flow.show(z)) if lpw else None
+        okw = ws[0]['value'][0] in ('call', 'len') and flow.show(ws[0]['value']).startswith('Vec::len(self.chunk_byte_indices') and wp is not None
     okr = [t['width'] for t in rs] == ['u32', 'u32'] and rs[0]['rep'] is None and rs[1]['rep'] is not None
     bound_ok = False
     if okr:
@@ -236,11 +242,29 @@ def r12d(ctx):
                         e = hd.flow.rvalue(d[3], 0)
                         if _range_to_token(hd, e, rs[0]['block']):
                             bound_ok = True
+    if okr and not bound_ok:
+        # `i = 0; while i < n { ..; i += 1 }`: a counting loop whose bound is the first token itself
+        from . import loops as L_
+        lp = serde.innermost_loop(hd, rs[1]['block'])
+        def _is_tok(z):
+            while z[0] == 'cast':
+                z = z[1]
+            return hd.rooted_at(z, rs[0]['block'])
+        cl = L_.counting_loop(hd, lp, _is_tok, strict=False) if lp else None
+        bound_ok = cl is not None
     ctx.check(okw and okr and bound_ok, 'R12d', H + 'serialize', 'tokens', '-', 'header: writer (u32 = len, u32 x len), reader (u32 n, then n x u32 with the loop running over 0..n, n being the first token itself)',
               'cache file header writer/reader disagree: writer %s reader %s' % ([t['width'] for t in ws], [(t['width'], t['rep'] is not None) for t in rs]))
     hl = an(F.body(H + 'header_len'))
     e = [x for (_, _, _, x) in hl.ret_sites()]
-    ok = len(e) == 1 and e[0][0] == 'bin' and e[0][1] in ('Mul', 'MulO') and flow.const_eval(e[0][3]) == 4 and e[0][2][0] == 'bin' and e[0][2][1] in ('Add', 'AddO') and flow.const_eval(e[0][2][3]) == 1 and 'chunk_byte_indices' in flow.show(e[0][2][2])
+    ok = False
+    if len(e) == 1 and e[0][0] == 'bin' and e[0][1] in ('Mul', 'MulO'):
+        for (f4, sm) in ((e[0][3], e[0][2]), (e[0][2], e[0][3])):
+            while sm[0] == 'cast':
+                sm = sm[1]
+            if flow.const_eval(f4) == 4 and sm[0] == 'bin' and sm[1] in ('Add', 'AddO'):
+                for (one, ln) in ((sm[3], sm[2]), (sm[2], sm[3])):
+                    if flow.const_eval(one) == 1 and 'chunk_byte_indices' in flow.show(ln):
+                        ok = True
     ctx.check(ok, 'R12d', H + 'header_len', 'formula', '-', 'header_len = (len + 1) * 4 = sum of the token widths')
 
 
